@@ -303,6 +303,19 @@ def run(ctx):
         if not ok:
             r.violate(key, f"{f.key.split('::')[-1]}: fields examined before the handler is moved into its Box: {early}; write_all_callback tests dominated by the move: {bool(tests) and bool(bx) and all(f.dominates(bx[0], t_) for t_ in tests)} — a handler rejected for a missing write_all_callback would never get its drop_callback (lol_html.h: called exactly once), leaking what user_data owns", f.loc())
 
+    # ------------------------------------------------------------------ R17.9
+    r = ctx.rule("R17.9", "lol_html_streaming_sink_write_utf8_chunk forwards the bytes as they are (fragments may split a multi-byte character; the Rust sink re-assembles them): no UTF-8 validation of the fragment in the C wrapper", "E-MIR", floor=1)
+    wf = [x for x in capi.fns if x.key.endswith("lol_html_streaming_sink_write_utf8_chunk")]
+    r.inst("write_utf8_chunk|raw-bytes", sample={"found": len(wf)})
+    if len(wf) != 1:
+        r.violate("write_utf8_chunk|raw-bytes", "lol_html_streaming_sink_write_utf8_chunk not found", None)
+    else:
+        wf = wf[0]
+        val = [callee_key(t) for bi, t in wf.calls(r"from_utf8")]
+        fw = [callee_key(t) for bi, t in wf.calls(r"StreamingHandlerSink::write_utf8_chunk$")]
+        if val or len(fw) != 1:
+            r.violate("write_utf8_chunk|raw-bytes", f"lol_html_streaming_sink_write_utf8_chunk validates the fragment as UTF-8 ({val}) or no longer forwards to StreamingHandlerSink::write_utf8_chunk ({fw}): a fragment that ends inside a multi-byte character is rejected with -1 and its bytes are dropped, while the Rust API (and lol_html.h) accept such splits", wf.loc())
+
     # ------------------------------------------------------------------ R17.8
     r = ctx.rule("R17.8", "the C sink and the C error contract mirror the Rust ones: ExternOutputSink::handle_chunk forwards every chunk (including the zero-length finalizing one) unconditionally; lol_html_element_add_end_tag_handler fails with an error message when the element has no end tag", "E-MIR", floor=2)
     hc = capi.fn("ExternOutputSink::handle_chunk[OutputSink]")
